@@ -66,6 +66,7 @@ func (sm3 *SM3) Reset() {
 
 // Write just follows the GoLand standard library convention
 func (sm3 *SM3) Write(data []byte) (n int, err error) {
+	n = len(data)
 	sm3.len += uint64(len(data))
 
 	if sm3.nx > 0 {
